@@ -1,6 +1,7 @@
 package bcheck
 
 import (
+	"strconv"
 	"bytes"
 	"fmt"
 	"net"
@@ -62,7 +63,7 @@ func c12Scenarios(tier string) []*Scenario {
 		bound = vs.Unbounded
 		maxR = 3
 	}
-	kinds := []string{"success", "fail", "nohost", "norc", "noapp", "badapp", "vsabad", "vsavendor", "vsagood", "disconnect"}
+	kinds := []string{"success", "fail", "nohost", "norc", "noapp", "badapp", "vsabad", "vsavendor", "vsagood", "disconnect", "fail1001", "fail3004", "fail1"}
 	extraSets := [][]string{nil, {"dup"}, {"latefail"}, {"raa"}, {"dup", "raa"}, {"latefail", "raa"}, {"raa", "dup", "raa"}}
 	var out []*Scenario
 	add := func(R int, script []c12Act, extras []string) {
@@ -79,7 +80,7 @@ func c12Scenarios(tier string) []*Scenario {
 				for d := 0; d <= 3; d++ {
 					sc := append([]c12Act{}, silent...)
 					sc[k] = c12Act{Kind: kind, Delay: d}
-					if kind == "vsabad" || kind == "vsavendor" || kind == "vsagood" {
+					if kind == "vsabad" || kind == "vsavendor" || kind == "vsagood" || strings.HasPrefix(kind, "fail") && kind != "fail" {
 						if d != 0 || k != 0 {
 							continue // application-shape variants: first CER, no delay
 						}
@@ -134,6 +135,11 @@ func c12Scenarios(tier string) []*Scenario {
 		}
 		if R == 0 {
 			out = append(out, c12Redial(bound))
+			for _, extraA := range []string{"dup-success", "late-fail", "none"} {
+				for _, kindB := range []string{"silent", "success", "fail"} {
+					out = append(out, c12TwoConns(extraA, kindB, bound))
+				}
+			}
 		}
 		if thorough && R >= 1 && R <= 2 {
 			// two answering indexes
@@ -255,6 +261,10 @@ func c12ScenarioSlow(R int, script []c12Act, extras []string, bound int, slow []
 						}
 					case "fail":
 						deliver("fail", peerAnswer(req, 5010, true))
+					case "fail1001", "fail3004", "fail1":
+						// other non-success result codes: informational, protocol error, and a value below 1000
+						rc, _ := strconv.Atoi(act.Kind[4:])
+						deliver("fail", peerAnswer(req, uint32(rc), true))
 					case "nohost":
 						deliver("nohost", peerAnswerOpt(req, 2001, true, false, true))
 					case "norc":
@@ -566,4 +576,127 @@ func c12Redial(bound int) *Scenario {
 		}
 		r.Sample = "four dials of one Client without configured host addresses from 10.1.2.3, 10.4.5.6, [2001:db8::7], 10.1.2.3"
 	}}
+}
+
+// c12TwoConns: one Client with an established connection A dials a second connection B. While
+// the second handshake is pending, the peer of A sends an extra CEA (duplicate success or late
+// failure). The outcome of the second dial depends on what the peer of B does - nothing else -
+// and connection A stays open. Peers are free environment threads: every order of the extra
+// CEA on A, the answer on B and the handshake timer is explored.
+type c12Two struct {
+	errA, errB       error
+	okA, okB         bool
+	retB             bool
+	a, b             *vnet.Conn
+	raaA, raaB       int
+	closedAWhenBDone bool
+}
+
+var c12two *c12Two
+
+func c12TwoConns(extraA, kindB string, bound int) *Scenario {
+	body := func() {
+		st := &c12Two{}
+		c12two = st
+		settings := &sm.Settings{OriginHost: "cli", OriginRealm: "test", VendorID: 13, ProductName: "prod", FirmwareRevision: 7,
+			HostIPAddresses: []datatype.Address{datatype.Address(net.ParseIP("10.0.0.2"))}}
+		mach := sm.New(settings)
+		mach.HandleFunc("RAA", func(c diam.Conn, m *diam.Message) {
+			if m.Header.HopByHopID == 71 {
+				st.raaA++
+			} else {
+				st.raaB++
+			}
+		})
+		cli := &sm.Client{Handler: mach, Dict: dict.Default, MaxRetransmits: 0, RetransmitInterval: c12Interval,
+			AuthApplicationID: []*diam.AVP{diam.NewAVP(avp.AuthApplicationID, avp.Mbit, 0, datatype.Unsigned32(4))}}
+		st.a, st.b = vnet.NewConn("A"), vnet.NewConn("B")
+		st.a.Pieces, st.b.Pieces = 1, 1
+		raa := func(hbh uint32) []byte {
+			return refcodec.EncodeMessage(refcodec.Header{Version: 1, Code: 258, HbH: hbh, E2E: 1}, []refcodec.Node{u32avp(268, 2001), ident(264, "srv"), ident(296, "test")})
+		}
+		var cerA *PMsg
+		bGotCER := false
+		vs.GoNamed("peerA", true, func() {
+			p := &Peer{C: st.a}
+			cerA = p.Next()
+			if cerA == nil {
+				return
+			}
+			st.a.Deliver(peerAnswer(cerA, 2001, true))
+			vs.BlockObj("wait-second-CER", st.b, func() bool { return bGotCER })
+			switch extraA {
+			case "dup-success":
+				st.a.Deliver(peerAnswer(cerA, 2001, true))
+			case "late-fail":
+				st.a.Deliver(peerAnswer(cerA, 5012, true))
+			}
+			st.a.Deliver(raa(71))
+		})
+		vs.GoNamed("peerB", true, func() {
+			p := &Peer{C: st.b}
+			cer := p.Next()
+			if cer == nil {
+				return
+			}
+			bGotCER = true
+			vs.Touch(st.b, "cer-seen")
+			switch kindB {
+			case "success":
+				st.b.Deliver(peerAnswer(cer, 2001, true))
+				st.b.Deliver(raa(72))
+			case "fail":
+				st.b.Deliver(peerAnswer(cer, 5010, true))
+			}
+		})
+		ca, err := cli.NewConn(st.a, "peerA")
+		st.okA, st.errA = ca != nil && err == nil, err
+		if !st.okA {
+			return
+		}
+		cb, err := cli.NewConn(st.b, "peerB")
+		st.okB, st.errB, st.retB = cb != nil && err == nil, err, true
+		st.closedAWhenBDone = st.a.Closed
+	}
+	check := func(s *vs.Sched) string {
+		st := c12two
+		var v []string
+		switch {
+		case !st.okA:
+			return fmt.Sprintf("harness: first dial failed: %v", st.errA)
+		case !st.retB:
+			return "the second Client.NewConn never returned (blocked: " + strings.Join(s.Blocked(), ", ") + ")"
+		}
+		switch kindB {
+		case "success":
+			if !st.okB {
+				v = append(v, fmt.Sprintf("the peer of the second connection answered its CER with a success CEA but the dial failed: %v", st.errB))
+			} else if st.b.Closed {
+				v = append(v, "the second connection was closed after a successful handshake")
+			} else if st.raaB != 1 {
+				v = append(v, fmt.Sprintf("second connection: %d of 1 answers dispatched to the application handler after the handshake", st.raaB))
+			}
+		default:
+			if st.okB {
+				v = append(v, fmt.Sprintf("the second dial returned a connection although its own peer %s (the only CEA came from the peer of the FIRST connection)", map[string]string{"silent": "never answered", "fail": "answered with a failing CEA"}[kindB]))
+			} else if !st.b.Closed {
+				v = append(v, "the second dial failed but its transport was not closed")
+			}
+		}
+		if st.a.Closed {
+			v = append(v, "the established first connection was closed")
+		} else if st.raaA != 1 {
+			v = append(v, fmt.Sprintf("first connection: %d of 1 answers dispatched to the application handler after the extra CEA", st.raaA))
+		}
+		for _, p := range s.Panics() {
+			v = append(v, "panic: "+p)
+		}
+		return strings.Join(v, " | ")
+	}
+	outcome := func(s *vs.Sched) string {
+		st := c12two
+		return fmt.Sprintf("okB=%v closedA=%v closedB=%v raa=%d/%d", st.okB, st.a.Closed, st.b.Closed, st.raaA, st.raaB)
+	}
+	return &Scenario{Name: fmt.Sprintf("handshake/second-dial/extra-on-first=%s/second-peer=%s", extraA, kindB), Body: body, Check: check, Outcome: outcome,
+		Bound: bound, Horizon: 6 * c12Interval}
 }
